@@ -436,14 +436,26 @@ func lineDiffClass(got, want string) string {
 // ---- level B: engine + reporting gun + real aggregator ----
 
 type c06Engine struct {
-	sp     c06Spec
-	inst   int
-	tokens int
-	shot   time.Duration
-	disk   *simfs.Fs
-	log    *stubs.Log
-	eng    *engine.Engine
-	met    engine.Metrics
+	sp      c06Spec
+	inst    int
+	tokens  int
+	shot    time.Duration
+	disk    *simfs.Fs
+	log     *stubs.Log
+	eng     *engine.Engine
+	met     engine.Metrics
+	aggrErr error
+}
+
+type aggrEnd struct {
+	core.Aggregator
+	e *c06Engine
+}
+
+func (a *aggrEnd) Run(ctx context.Context, deps core.AggregatorDeps) error {
+	err := a.Aggregator.Run(ctx, deps)
+	a.e.aggrErr = err
+	return err
 }
 
 func buildC06Engine(sp c06Spec, inst, tokens int, rate float64, dur time.Duration, shot shotScript, logger *zap.Logger) (*c06Engine, error) {
@@ -455,6 +467,8 @@ func buildC06Engine(sp c06Spec, inst, tokens int, rate float64, dur time.Duratio
 	if err != nil {
 		return nil, err
 	}
+	// the error the aggregator itself ends with (a cancelled Engine.Run returns the cancellation, not this one)
+	aggr = &aggrEnd{Aggregator: aggr, e: e}
 	e.log = stubs.NewLog()
 	script := stubs.DefaultGunScript()
 	script.Report = true
@@ -561,7 +575,11 @@ func runC06B(r *R) {
 		r.NonTrivial()
 	}
 	dropped := droppedFrom(runErr)
-	if runErr != nil && dropped == 0 {
+	if cancelled && dropped == 0 {
+		// a cancelled run returns the cancellation; the count of dropped samples is in the error the aggregator ended with
+		dropped = droppedFrom(e.aggrErr)
+	}
+	if runErr != nil && droppedFrom(runErr) == 0 {
 		r.Fail("engine-run-error", "Engine.Run returned %q", runErr)
 		return
 	}
@@ -709,6 +727,13 @@ func runC06C(r *R) {
 	r.Note("C/" + how + "/" + exitClass(exitMsg))
 	if os.Getenv("VERIF_DEBUG") != "" {
 		fmt.Fprintf(os.Stderr, "C06C: how=%s exit=%q at %v reported=%d lines=%d missing=%d sigAt=%v inflight=%d\n", how, exitMsg, exitT, reported, nlines, missing, sigAt, inFlightAtSig)
+	}
+	if stalls && strings.Contains(exitMsg, "timeout exceeded") {
+		// the forced exit when the 3 s / 30 s interrupt timeout runs out is pandora's stated behaviour; with injected
+		// stalls (tasks descheduled for up to a second at a time) the drain can legitimately take longer than that.
+		// Without stalls nothing in these runs takes that long, and a timeout exit is judged like any other.
+		r.Note("C/timeout-exit-under-injected-stalls")
+		return
 	}
 	if missing > 0 {
 		r.Fail("process-exit/lost-samples/"+how, "the process exited (%q) at %v after %s; %d of the %d samples reported before the stop request are not in the result file (%d lines on disk; first missing %s; %s queue %d buffer %s)",
